@@ -45,3 +45,21 @@ func (t *Simple) ToUnicode() *cmap.ToUnicodeFile {
 	tuInfo, _ := cmap.NewToUnicodeFile(charcode.Simple, m)
 	return tuInfo
 }
+
+// ToUnicodeFull returns a ToUnicode CMap which lists the text of every mapped
+// code.  This is needed for font dictionaries without a named encoding
+// (symbolic TrueType fonts): there a reader cannot derive any text from glyph
+// names, so no entry may be left out as "implied".
+func (t *Simple) ToUnicodeFull() *cmap.ToUnicodeFile {
+	m := make(map[charcode.Code]string)
+	for k, c := range t.code {
+		if k.text != "" {
+			m[charcode.Code(c)] = k.text
+		}
+	}
+	if len(m) == 0 {
+		return nil
+	}
+	tuInfo, _ := cmap.NewToUnicodeFile(charcode.Simple, m)
+	return tuInfo
+}
